@@ -107,6 +107,11 @@ pub struct TransformerContext {
     /// but `<reuse>` elements are an exception during processing of
     /// the referenced element.
     element_stack: Vec<SvgElement>,
+    /// Ids which have been registered / whose element has a bounding box of its own.
+    /// Both only ever grow; together they tell whether retrying a deferred element
+    /// can turn out differently from its last attempt.
+    known_ids: std::collections::HashSet<String>,
+    settled_ids: std::collections::HashSet<String>,
     /// The element which `^` refers to; some elements are ignored as 'previous'
     prev_element: Option<SvgElement>,
     /// Stack of scoped variables etc
@@ -133,6 +138,8 @@ impl Default for TransformerContext {
             elem_map: HashMap::new(),
             original_map: HashMap::new(),
             element_stack: Vec::new(),
+            known_ids: std::collections::HashSet::new(),
+            settled_ids: std::collections::HashSet::new(),
             prev_element: None,
             scope_stack: Vec::new(),
             rng: RefCell::new(Pcg32::seed_from_u64(0)),
@@ -456,10 +463,19 @@ impl TransformerContext {
             let id = eval_attr(&id, self).unwrap_or(id);
             #[cfg(feature = "verif")]
             crate::verif::registered(&id, !self.elem_map.contains_key(&id));
+            if matches!(el.bbox(), Ok(Some(_))) {
+                self.settled_ids.insert(id.clone());
+            }
+            self.known_ids.insert(id.clone());
             if self.elem_map.insert(id.clone(), el.clone()).is_none() {
                 self.original_map.insert(id, el.clone());
             }
         }
+    }
+
+    /// How much is known about the elements of the document; grows, never shrinks.
+    pub fn knowledge(&self) -> usize {
+        self.known_ids.len() + self.settled_ids.len()
     }
 }
 
